@@ -84,18 +84,31 @@ class RefSingle:
         return user == self.user and password == self.password
 
 
+BCRYPT_B64 = "./ABCDEFGHIJKLMNOPQRSTUVWXYZabcdefghijklmnopqrstuvwxyz0123456789"
+
+
 class RefHtpasswd:
-    """Accepts exactly the pairs of the htpasswd file it wrote ({SHA} = base64(sha1(password)), Apache documentation)."""
+    """Accepts exactly the pairs of the htpasswd file it wrote: {SHA} = base64(sha1(password)) (Apache documentation) or,
+    for the users in `bcrypt_users`, a $2b$ hash made with the bcrypt library (cost 4, salt drawn from `rng`).
+    The reference decision never hashes anything: it compares with the plaintext pairs."""
 
     kind = "htpasswd"
 
-    def __init__(self, pairs: dict):
+    def __init__(self, pairs: dict, bcrypt_users=(), rng=None):
         self.pairs = dict(pairs)
+        self.bcrypt_users = set(bcrypt_users)
+        self.rng = rng
 
     def file_content(self) -> str:
         lines = ["# generated for C20"]
         for u, p in self.pairs.items():
-            lines.append(u + ":{SHA}" + base64.b64encode(hashlib.sha1(p.encode("utf-8")).digest()).decode("ascii"))
+            if u in self.bcrypt_users:
+                import bcrypt
+
+                salt = "$2b$04$" + "".join(self.rng.choice(BCRYPT_B64) for _ in range(21)) + self.rng.choice(".Oeu")
+                lines.append(u + ":" + bcrypt.hashpw(p.encode("utf-8"), salt.encode("ascii")).decode("ascii"))
+            else:
+                lines.append(u + ":{SHA}" + base64.b64encode(hashlib.sha1(p.encode("utf-8")).digest()).decode("ascii"))
         return "\n".join(lines) + "\n"
 
     def __call__(self, user, password):
